@@ -45,6 +45,12 @@ def _case(draw, kind):
     else:
         shapes = None
     rhs = draw(PR.prog_params(shapes=shapes))
+    linear = kind == "implicit" and draw(st.sampled_from([False, False, True]))
+    if linear:
+        # f = P y + c cos(w2 t) u: the stage equations are one linear system, which a Newton-type solver with the true
+        # Jacobian solves whatever the stiffness
+        n_ = int(np.prod(rhs["shape"]))
+        rhs = dict(rhs, Q=[[0.0] * n_ for _ in range(n_)], a=0.0)
     t = draw(st.sampled_from([0.0, 1.0, -3.0, 10.0, -100.0, 1000.0]))
     hmag = draw(st.sampled_from([1e-4, 1e-3, 0.01, 0.05, 0.125, 0.25, 0.5, 1.0, 2.0]))
     if kind == "implicit":
@@ -63,7 +69,8 @@ def _case(draw, kind):
                 # the constants passed to the rhs may differ from step to step (k scales f): a slope cached from the previous call
                 # belongs to the previous constants
                 ks=[draw(st.sampled_from([1.0, 1.0, 0.5, -1.5])) for _ in range(3)],
-                stiff=draw(st.sampled_from([1.0, 1.0, 1.0, 10.0, 40.0])) if kind == "implicit" else 1.0,
+                stiff=(draw(st.sampled_from([1.0, 1.0, 1.0, 10.0, 40.0])) if not linear else draw(st.sampled_from([1.0, 10.0, 40.0, 100.0, 400.0]))) if kind == "implicit" else 1.0,
+                linear=linear,
                 jump=[draw(st.booleans()) for _ in range(2)], jump_y=draw(PR.state(rhs["shape"])), jump_t=draw(st.sampled_from([0.5, -1.25, 7.0])))
 
 
@@ -141,8 +148,19 @@ def check(case):
         kbox[0] = case.get("ks", [1.0, 1.0, 1.0])[step_no]
         try:
             next_dt, (dT, dY) = integ(rhs, t, y, {"k": kbox[0]}, h)
-        except FailedToMeetTolerances:
+        except FailedToMeetTolerances as e:
             labels.append("reported_failure")
+            if case.get("linear"):
+                # linear stage system (I - h A (x) J) K = rhs: unless it is close to singular, failing to solve it means the
+                # solver was handed a wrong Jacobian
+                Atab = M.tableau(name)[1]
+                Jf = np.asarray(f.jac(float(t), np.asarray(y, dtype=np.float64)), dtype=np.float64).reshape(f.n, f.n)
+                Sm = np.eye(Atab.shape[0] * f.n) - float(h) * np.kron(Atab, Jf)
+                cond = float(np.linalg.cond(Sm))
+                metrics["linear_stage_cond_at_failure"] = cond
+                if cond <= 1e6:
+                    viols.append(V("linear_stage_system_unsolved", "{} step {}: the stage equations of a LINEAR problem (condition number {:.1e}, h |J| = {:.2f}) were reported unsolvable: {!r}".format(
+                        name, step_no, cond, abs(float(h)) * float(np.max(np.sum(np.abs(Jf), axis=1))), e), sig, **attrs))
             break
         except Exception as e:
             origin, where = exc_origin(e)
